@@ -605,11 +605,13 @@ func runRandom(c *core.Ctx, idx int, boundary bool) {
 			nOps += 10
 		}
 	}
-	// region sparse-series-filter: 5..9 series (ids in the order of their first rows), every memory
-	// database receives rows of a random subset only (re-drawn at every flush of the family), so the
-	// storage units hold different subsets; most queries carry a tag condition
+	// region sparse-series-filter: 5..9 series (ids in the order of their first rows: one row each at
+	// the start). A memory database flushes every series of the shard's in-memory series index, and
+	// that index starts empty at a restart: after every reopen only a random subset of the series
+	// (`live`, growing slowly) is written, so memory databases and files hold different subsets of
+	// the ids; most queries carry a tag condition
 	var srng *rand.Rand
-	famSubset := map[int][]seriesDef{}
+	var live []seriesDef
 	if sparse {
 		c.Branch("gen/region:sparse-series-filter")
 		srng = rand.New(rand.NewSource(rng.Int63()))
@@ -631,11 +633,13 @@ func runRandom(c *core.Ctx, idx int, boundary bool) {
 		if !sparse {
 			return sdefs[rng.Intn(len(sdefs))]
 		}
-		if famSubset[fam] == nil {
-			famSubset[fam] = sparseSubset(srng, sdefs)
+		if live == nil {
+			return sdefs[srng.Intn(len(sdefs))]
 		}
-		sub := famSubset[fam]
-		return sub[srng.Intn(len(sub))]
+		if srng.Intn(10) == 0 {
+			live = append(live, sdefs[srng.Intn(len(sdefs))])
+		}
+		return live[srng.Intn(len(live))]
 	}
 	// a "hot" region of slots so that duplicates and window effects are frequent
 	hot := rng.Intn(spf)
@@ -669,14 +673,21 @@ func runRandom(c *core.Ctx, idx int, boundary bool) {
 		if !inWindow && placementFree(q) && rng.Intn(8) == 0 {
 			fam := pick(rng, famChoices)
 			r.queryFlushBeforeLoad(q, fam)
-			if sparse {
-				famSubset[fam] = nil
-			}
 			queries++
 			return
 		}
 		r.query(q)
 		queries++
+	}
+	if sparse {
+		for _, s := range sdefs {
+			f := flds[srng.Intn(len(flds))]
+			r.writeRow(pick(srng, famChoices), s, slotOf(), 0, []fieldVal{{f, float64(srng.Intn(41) - 10)}}, nil, false)
+		}
+		if srng.Intn(4) != 0 {
+			r.reopen()
+			live = sparseSubset(srng, sdefs)
+		}
 	}
 	for op := 0; op < nOps; op++ {
 		x := rng.Intn(100)
@@ -737,9 +748,6 @@ func runRandom(c *core.Ctx, idx int, boundary bool) {
 				if rng.Intn(4) == 0 {
 					window = r.flushFail
 				}
-				if sparse {
-					famSubset[fam] = nil
-				}
 				window(fam, func() {
 					inWindow = true
 					defer func() { inWindow = false }()
@@ -767,14 +775,16 @@ func runRandom(c *core.Ctx, idx int, boundary bool) {
 				})
 			} else {
 				r.flush(fam)
-				if sparse {
-					famSubset[fam] = nil
-				}
 			}
 		case x < cT:
 			r.compact(pick(rng, famChoices))
-		case x < 87 || (partial && x < 91):
+		case x < 87 || (partial && x < 91) || (sparse && x < 92):
 			r.reopen()
+			if sparse {
+				// the shard's in-memory series index starts empty: from now on the storage units hold
+				// only the series written after the restart
+				live = sparseSubset(srng, sdefs)
+			}
 			if boundary {
 				// after a restart the memory databases' metric index is empty; as soon as it holds a
 				// series of one container, a query that also covers a series of a LARGER container
